@@ -26,7 +26,10 @@ from ..rng import Rng
 
 PID = "C15"
 KNOWN_PATH = os.path.join(core.VERIF, "known", "c15_findings.json")
-ASAN_ENV = {"ASAN_OPTIONS": "halt_on_error=1:detect_leaks=0:exitcode=66"}
+# malloc_context_size=2 halves the run time under ASan (shorter allocation stacks in reports, same detection)
+ASAN_ENV = {"ASAN_OPTIONS": "halt_on_error=1:detect_leaks=0:exitcode=66:malloc_context_size=2"}
+# ASan runs ~25x slower than native here (a fresh context per job): a fixed share of every stream is replayed under it
+ASAN_SHARE = {"main": 1500, "reentrant": 2200, "matrix": 300}
 GEN_PROCS = 6
 
 
@@ -187,7 +190,7 @@ def compare_batch(chk, hs, rb, rn, tool, tally, seen, samples, disagreements):
                 if key not in seen:
                     seen.add(key)
                     distinct += 1
-                    if len(samples) < 6 and h["effects"] > 0 and len(h["steps"]) <= 14:
+                    if len(samples) < 6 and (h["effects"] > 0 or distinct > 40) and len(h["steps"]) <= 14:
                         samples.append({"stream": h["stream"], "steps": nsteps, "js": [gen_buf.step_js(s)[:200] for s in h["steps"]],
                                         "last_lines": exp[-2:]})
             continue
@@ -247,54 +250,93 @@ def replay_known(chk, findings, native):
                 {"kind": "known", "id": k["id"], "src": rep["src"]})
 
 
-# ------------------------------------------------------------------------------------------------ miri (optional)
-def miri_sample(chk, hs, limit, budget_s):
-    """a handful of tiny histories under Miri; only if a Miri build of the harness already exists (never builds)"""
-    tdir = os.path.join(core.VERIF, ".targets", "miri")
-    if not os.path.isdir(tdir):
-        return {"ran": 0, "note": "no miri build of bvh present (.targets/miri); skipped"}
-    small = [h for h in hs if len(h["steps"]) <= 8 and not h["f16"]][:limit]
-    if not small:
-        return {"ran": 0, "note": "no small histories"}
-    d = runner.workdir("c15-miri")
-    ran = 0
-    t_end = time.time() + budget_s
-    procs = []
-    crate = os.path.join(core.VERIF, "harness", "bvh")
-    env = dict(os.environ)
-    env.update({"CARGO_TARGET_DIR": tdir, "MIRIFLAGS": "-Zmiri-disable-isolation -Zmiri-tree-borrows", "CARGO_NET_OFFLINE": "true", "RUSTFLAGS": "--cfg boa_verif"})
-    for i, h in enumerate(small):
-        jp = os.path.join(d, "j%d.jsonl" % i)
-        op = os.path.join(d, "o%d.jsonl" % i)
+# ------------------------------------------------------------------------------------------------ miri (thorough, optional)
+MIRI_FLAGS = "-Zmiri-disable-isolation -Zmiri-tree-borrows -Zmiri-ignore-leaks"
+
+
+class MiriRun:
+    """A handful of tiny histories through the byte-copy helpers under Miri (whole engine: ~5 min per program here, plus
+    ~10 min when the Miri build of the harness is stale). Runs in a background thread next to the rest of the thorough
+    tier: the first program alone (it pays for the build), the others in parallel. Undefined behaviour is a violation;
+    everything else that goes wrong (watchdog, no output) is inconclusive. The native run stays the judge of semantics."""
+
+    def __init__(self, seed, feats, avoid, count=6):
+        import threading
+        self.hs = []
+        for i in range(count):
+            steps, m, rej = gen_buf.generate_small(Rng(seed, "c15", "miri", i), avoid=avoid, has_detach=feats["detach"])
+            self.hs.append({"steps": steps, "lines": m.lines, "index": i})
+        self.dir = runner.workdir("c15-miri")
+        self.results = [None] * count
+        self.procs = []
+        self.t0 = time.time()
+        self.thread = threading.Thread(target=self._work, daemon=True)
+        self.thread.start()
+
+    def _spawn(self, i):
+        h = self.hs[i]
+        jp = os.path.join(self.dir, "j%d.jsonl" % i)
+        op = os.path.join(self.dir, "o%d.jsonl" % i)
         with open(jp, "w") as f:
             f.write(json.dumps(job_of(h, i)) + "\n")
-        cmd = ["cargo", "+nightly", "miri", "run", "--offline", "-q", "--", "session", jp, op, "--timeout", "600", "--prelude", runner.PRELUDE]
-        procs.append((h, op, subprocess.Popen(cmd, cwd=crate, env=env, stdout=subprocess.DEVNULL, stderr=subprocess.PIPE)))
-        if len(procs) >= 6:
-            break
-    for h, op, p in procs:
+        env = dict(os.environ)
+        env.update({"CARGO_TARGET_DIR": os.path.join(core.VERIF, ".targets", "miri"), "MIRIFLAGS": MIRI_FLAGS,
+                    "CARGO_NET_OFFLINE": "true", "RUSTFLAGS": "--cfg boa_verif"})
+        cmd = ["cargo", "+nightly", "miri", "run", "--offline", "-q", "--", "session", jp, op, "--timeout", "3000", "--prelude", runner.PRELUDE]
+        p = subprocess.Popen(cmd, cwd=os.path.join(core.VERIF, "harness", "bvh"), env=env, stdout=subprocess.DEVNULL, stderr=subprocess.PIPE)
+        self.procs.append(p)
+        return p, op
+
+    def _finish(self, i, p, op, timeout):
         try:
-            _, err = p.communicate(timeout=max(1, t_end - time.time()))
+            _, err = p.communicate(timeout=timeout)
         except subprocess.TimeoutExpired:
             p.kill()
             p.communicate()
-            chk.inconc("miri:watchdog")
-            continue
+            self.results[i] = ("watchdog", "")
+            return
         err = err.decode("utf8", "replace")
         if "Undefined Behavior" in err:
-            chk.violation("[miri] undefined behaviour: " + err[-1500:], {"kind": "history", "steps": h["steps"], "tool": "miri"})
-            continue
+            self.results[i] = ("ub", err[-2500:])
+            return
         try:
             with open(op) as f:
                 r = json.loads(f.readline())
         except Exception:
-            chk.inconc("miri:no-output")
-            continue
-        if bm.compare_traces(h["lines"], r.get("trace") or []) is not None:
-            chk.inconc("miri:trace-differs")   # the native run is the judge of semantics
-        ran += 1
-    runner.cleanup(d)
-    return {"ran": ran}
+            self.results[i] = ("no-output", err[-600:])
+            return
+        d = bm.compare_traces(self.hs[i]["lines"], r.get("trace") or [])
+        self.results[i] = ("ok", "") if d is None and not r.get("fatal") else ("differs", json.dumps(d or r.get("fatal"))[:400])
+
+    def _work(self):
+        p, op = self._spawn(0)
+        self._finish(0, p, op, 1500)     # includes the Miri build when stale
+        if self.results[0][0] in ("watchdog", "no-output"):
+            return
+        rest = [(i,) + self._spawn(i) for i in range(1, len(self.hs))]
+        for i, p, op in rest:
+            self._finish(i, p, op, max(60, 1700 - (time.time() - self.t0)))
+
+    def collect(self, chk, wait_s):
+        self.thread.join(timeout=max(1, wait_s))
+        if self.thread.is_alive():
+            for p in self.procs:
+                try:
+                    p.kill()
+                except Exception:
+                    pass
+            self.thread.join(timeout=20)
+        info = {"programs": len(self.hs), "outcomes": {}, "wall_s": round(time.time() - self.t0)}
+        for i, res in enumerate(self.results):
+            kind, text = res if res else ("not-run", "")
+            info["outcomes"][kind] = info["outcomes"].get(kind, 0) + 1
+            if kind == "ub":
+                chk.violation("[miri] undefined behaviour in a %d-step history: %s" % (len(self.hs[i]["steps"]), text),
+                              {"kind": "history", "stream": "miri", "index": i, "steps": self.hs[i]["steps"], "tool": "miri"})
+            elif kind != "ok":
+                chk.inconc("miri:" + kind)
+        runner.cleanup(self.dir)
+        return info
 
 
 # ------------------------------------------------------------------------------------------------ entry points
@@ -322,7 +364,7 @@ def run(tier, seed):
         plan = [("main", 24000), ("reentrant", 12000), ("matrix", 4000)]
         batch = 8000
     else:
-        plan = [("main", 4200), ("reentrant", 1200), ("matrix", 600)]
+        plan = [("main", 3200), ("reentrant", 900), ("matrix", 400)]
         batch = 6000
     scale = float(os.environ.get("C15_SCALE", "1") or 1)   # for experiments only
     if scale != 1:
@@ -346,12 +388,15 @@ def run(tier, seed):
     for stream, count in plan:
         flat += [(stream, i) for i in range(count)]
     miri_info = None
+    miri = None
+    if thorough and os.environ.get("C15_MIRI", "1") != "0":
+        try:
+            miri = MiriRun(seed, feats, avoid)
+        except Exception as e:  # noqa
+            chk.inconc("miri:cannot-start")
     try:
         for b0 in range(0, len(flat), batch):
             part = flat[b0:b0 + batch]
-            sub = {}
-            for stream, i in part:
-                sub.setdefault(stream, []).append(i)
             tasks = [(seed, stream, i, feats, sorted(avoid)) for stream, i in part]
             hs = _generate_tasks(tasks)
             for h in hs:
@@ -363,22 +408,27 @@ def run(tier, seed):
             evals += e
             distinct += d
             if asan:
-                ra = runner.run_bvh(asan, "session", jobs, "c15asan", env=ASAN_ENV, timeout=60)
-                e, _ = compare_batch(chk, hs, ra, rn, "asan", tally, set(), [], [])
-                asan_evals += e
-            if thorough and miri_info is None:
-                miri_info = miri_sample(chk, hs, 6, 900)
+                sel = [k for k, h in enumerate(hs) if h["index"] < ASAN_SHARE.get(h["stream"], 0) * max(scale, 0.02)]
+                if sel:
+                    ra = runner.run_bvh(asan, "session", [jobs[k] for k in sel], "c15asan", env=ASAN_ENV, timeout=120, shards=8)
+                    e, _ = compare_batch(chk, [hs[k] for k in sel], ra, [rn[k] for k in sel] if rn is not None else None,
+                                         "asan", tally, set(), [], [])
+                    asan_evals += e
             if len(chk.violations) > 40:
                 break
     finally:
         pool.close()
+    if miri is not None:
+        miri_info = miri.collect(chk, max(60, 1500 - (time.time() - chk.t0)))
     replay_known(chk, findings, native)
     chk.assumptions = [
         "vlib/models/bytes.py (ECMA-262 2024 text: IsTypedArrayOutOfBounds / IsViewOutOfBounds re-evaluated per access, conversions by exact integer arithmetic) is the specification",
         "the bit pattern of a NaN Number stored into a float element is implementation-defined: bytes written by such a store are wildcards in every observation",
         "shapes of open findings are excluded from the streams by model hazard flags: %s" % (sorted(avoid) or "none"),
-        "always excluded (under-specified or engine-shared quirk): copyWithin that is cut short by a shrink in its own coercion (byte-loop direction dependent), "
-        "Atomics on an element only partly inside a shrunk buffer, slice of a zero-length SharedArrayBuffer (boa and V8 both report `same data block`)",
+        "always excluded (under-specified or engine-shared quirk): Atomics on an element only partly inside a shrunk buffer, slice of a zero-length "
+        "SharedArrayBuffer (boa and V8 both report `same data block`), %TypedArray%.prototype.with on a BigInt array shrunk by its own coercion "
+        "(the specification asserts `! Set(A, k, undefined)`)",
+        "copyWithin after a shrink in its own coercion follows ES2025 (count clamped to the still-applicable prefix), which boa and V8 both implement",
         "detach is exercised through the host function __detach (and transfer/transferToFixedLength when the engine build has them: %s)" % feats["transfer"],
         "V8 11.3 deviations known to the model (v8:* hazards) cut the V8 comparison of that history at the deviating step",
     ]
@@ -408,7 +458,7 @@ def run(tier, seed):
             "engine_features": feats,
             "miri": miri_info,
         },
-        min_nontrivial=200 if not thorough else 5000,
+        min_nontrivial=int((400 if not thorough else 5000) * min(scale, 1.0)),
     )
 
 
